@@ -167,22 +167,15 @@ pub fn c18_q_other_thread_unaffected() {
 #[kani::stub(emit::span::SpanId::try_from_hex, span_hex_unreachable)]
 #[kani::stub(emit_core::value::Value::parse, parse_unreachable)]
 pub fn c18_w_twin_sampler_runs_for_children() {
-    // false claim: the sampler is consulted for every span
-    let arr = ArrCtxt::new();
-    let em = RecEmitter::new();
-    let clock = SeqClock { readings: [None; 4], calls: Cell::new(0) };
-    let rng = CountRng::new(100);
+    // false claim: the sampler is consulted for a child span inside an active trace
     let calls = Cell::new(0u32);
     let filter = TraceparentFilter::new_with_sampler(|_c: &SpanCtxt| { calls.set(calls.get() + 1); true });
-    let ctxt = TraceparentCtxt::new(&arr);
-    let (mut g, frame) = SpanGuard::new(&filter, &ctxt, &clock, &rng, Empty, Empty, Path::new_raw("m"), "s", Empty);
-    frame.call(|| {
-        g.start();
-        let (mut g2, f2) = SpanGuard::new(&filter, &ctxt, &clock, &rng, Empty, Empty, Path::new_raw("m"), "s", Empty);
-        f2.call(|| { g2.start(); drop(g2); });
-        drop(g);
+    let span_ctxt = SpanCtxt::new(TraceId::from_u128(7), SpanId::from_u64(9), SpanId::from_u64(11));
+    Traceparent::new(TraceId::from_u128(7), SpanId::from_u64(9), TraceFlags::SAMPLED).push().call(|| {
+        let evt = emit::Span::new(Path::new_raw("m"), "s", Empty, span_ctxt);
+        let _ = filter.matches(&evt);
     });
-    assert!(calls.get() == 2);
+    assert!(calls.get() == 1);
 }
 
 // ---- one-step kernels (whole span trees over the std build are slow: see the _t_ harnesses) ----------
